@@ -133,7 +133,7 @@ Definition sites_escaped_statement : Prop :=
 Theorem sites_escaped_refuted : ~ sites_escaped_statement.
 Proof.
   intros H.
-  destruct (known_sites_unescaped (s "macros.html:var.dimension#1")) as (st & F & R & E).
+  destruct (known_sites_unescaped (s "macros.html:var.full_type | relurl(page_url)#1")) as (st & F & R & E).
   { vm_compute. auto 20. }
   assert (Hin : In st sites) by (eapply find_site_In; eauto).
   rewrite (H st Hin R) in E. discriminate.
